@@ -198,7 +198,7 @@ Definition core_send (blocking : bool) (s : state) (v : N) : res :=
   else match rq s with
        | (g, w) :: rest =>
            (handoff_to_receiver s g w rest v, OOk, [EOffer v; EHand v; EAck v; EWake w])
-       | [] => if blocking then (s, OBlock, [EBack v]) else (s, OFull v, [EBack v])
+       | [] => if blocking then (s, OBlock, []) else (s, OFull v, [EBack v])
        end.
 
 (* fulfill_sender on the head of sender_waiters: take() of the record source slot (expect), DONE, wake *)
@@ -361,7 +361,9 @@ Definition step (c : cfg) (s : state) (o : op) : res :=
       | Some hd =>
           if h_async hd then (s, ONa, [])
           else if h_closed hd then (s, OClosed, [EIntro v; EDropArg v])
-          else let '(s', r, e) := core_send true s v in (s', r, EIntro v :: e)
+          else let '(s', r, e) := core_send true s v in
+               (* a call that parks is never executed: its payload never enters *)
+               (s', r, match r with OBlock => [] | _ => EIntro v :: e end)
       end
   | TryRecv h =>
       match h_live_side s h Rx with
